@@ -169,7 +169,8 @@ theorem readRound_rejects {W : World ω} (C : Cfg) (E : Engine σ) (hE : ReadRej
     obtain ⟨ans, out⟩ := p
     have ha : ans = .sslErr := hs.2.2.1 ans out rfl
     subst ha
-    exact ⟨.sslError, _, rfl⟩
+    obtain ⟨e, s', hr⟩ := handleResult_fatal (W := W) (noteCall E s1 true [] .sslErr) .sslErr (Or.inr (Or.inr rfl))
+    exact ⟨e, s', by simp [hr]⟩
 
 /-- `Receive` (any timeout, any receive-buffer size) against a peer that is not a TLS peer:
 always an exception, never a value - zero bytes are delivered.  (Whatever the world does: data,
@@ -209,7 +210,9 @@ theorem writeRound_rejects {W : World ω} (C : Cfg) (E : Engine σ) (hE : WriteR
     obtain ⟨ans, out⟩ := p
     have ha : ans = .sslErr := hs.2.2.1 ans out rfl
     subst ha
-    exact ⟨.sslError, _, rfl⟩
+    obtain ⟨e, s', hr⟩ := handleResult_fatal (W := W) (setPending (noteCall E s1 false rest .sslErr) rest) .sslErr
+      (Or.inr (Or.inr rfl))
+    exact ⟨e, s', by simp [writeRetry, hr]⟩
 
 /-- `Send` of a non-empty buffer against a peer that is not a TLS peer: an exception, and by
 `plaintext_only_via_engine` nothing of the buffer reached the wire -/
